@@ -27,16 +27,17 @@ Section Top.
   Variable ethash_ok : header -> bool.
   (** The header hash has 32 bytes and covers the block number and the parent hash (for block
       numbers below 2^63; above, rlp refuses the number).  No other property of the hash is used. *)
-  Hypothesis hash_len : forall a, length (hash a) = 32%nat.
-  Hypothesis hash_num : forall a b, h_num a < two63 -> h_num b < two63 -> hash a = hash b -> h_num a = h_num b.
-  Hypothesis hash_parent : forall a b, h_num a < two63 -> h_num b < two63 -> hash a = hash b ->
+  Variable U : header -> Prop.   (* the headers that occur (creation header + every submitted header) *)
+  Hypothesis hash_len : forall a, U a -> length (hash a) = 32%nat.
+  Hypothesis hash_num : forall a b, U a -> U b -> h_num a < two63 -> h_num b < two63 -> hash a = hash b -> h_num a = h_num b.
+  Hypothesis hash_parent : forall a b, U a -> U b -> h_num a < two63 -> h_num b < two63 -> hash a = hash b ->
                                        to_hash (h_parent a) = to_hash (h_parent b).
   Variable r0 g0 : N.
   Notation idx_wf := (idx_wf hash r0).
   Notation wf_hdr := (wf_hdr r0).
   Notation key := (key hash).
   Notation Stored := (Stored hash).
-  Notation Inv := (Inv hash r0 g0).
+  Notation Inv := (Inv hash r0 g0 U).
   Notation update_client := (update_client hash ethash_ok).
   Notation valid_child_b := (valid_child_b hash ethash_ok).
 
@@ -57,21 +58,39 @@ Section Top.
     intros F a E. unfold noalias_b in F. unfold EthChain.key in E. rewrite E in F. apply header_eqb_eq. exact F.
   Qed.
 
+  (** * The validity check accepts exactly ... (Proofs/EthValid.v), for the current variant *)
+  Lemma check_validity_ok bt s h :
+    idx_wf (idx s) -> h_num h < two63 -> check_validity hash ethash_ok bt s h = Ok tt ->
+    valid_child_b bt s h = true /\ rev_ok cur s h = true /\ exp_ok cur bt s h = true.
+  Proof.
+    intros WF Hh CV. unfold check_validity in CV. rewrite (check_validity_eq hash ethash_ok cur r0 bt s h WF Hh) in CV.
+    destruct (Eth.valid_child_b hash ethash_ok bt s h); [|discriminate].
+    destruct (rev_ok cur s h); [|discriminate]. destruct (exp_ok cur bt s h); [|discriminate]. repeat split.
+  Qed.
+
+  (** with the revision repair in place an accepted header carries the head's revision number *)
+  Lemma rev_ok_fixed s h : fix_rev = true -> rev_ok cur s h = true -> h_rev h = h_rev (head s).
+  Proof.
+    unfold rev_ok. change (v_rev cur) with fix_rev. intros E H. rewrite E in H. apply N.eqb_eq. exact H.
+  Qed.
+
   (** * The step after pruning *)
-  Lemma step_from_pruned s1 L D h c3 :
-    Inv s1 L D -> wf_hdr h -> g0 <= h_num h ->
-    (forall a, Stored (idx s1) a -> h_num a = h_num h -> to_hash (h_root a) = to_hash (h_root h) -> key a = key h) ->
+  Lemma step_from_pruned s1 L D h c3 rm3 :
+    Inv s1 L D -> wf_hdr h -> U h -> g0 <= h_num h ->
+    (fix_root = false ->
+     forall a, Stored (idx s1) a -> h_num a = h_num h -> to_hash (h_root a) = to_hash (h_root h) -> key a = key h) ->
     (forall a, iget (key h) (idx s1) = Some a -> a = h) ->
     (forall d, In d D -> key h <> key d) ->
     (beq (hash (head s1)) (h_parent h) = true -> parent_of (idx s1) h = Some (head s1)) ->
     (if negb (beq (hash (head s1)) (h_parent h))
-     then restrict_chain hash (store_header hash s1 h) (head s1) h else Ok (cons (store_header hash s1 h))) = Ok c3 ->
+     then restrict_chain hash (store_header hash s1 h) (head s1) h
+     else Ok (cons (store_header hash s1 h), rmain (store_header hash s1 h))) = Ok (c3, rm3) ->
     exists L',
       Inv {| head := h; chain_id := chain_id s1; trusting := trusting s1; idx := idx (store_header hash s1 h);
-             rmain := rmain (store_header hash s1 h); cons := cset (h_rev h, h_num h) (cstate_of h) c3 |} L' D
+             rmain := rm3; cons := cset (h_rev h, h_num h) (cstate_of h) c3 |} L' D
       /\ low h L' = low (head s1) L.
   Proof.
-    intros I1 Wh Hg0 Hfresh Hnoalias Hdead Hchild R.
+    intros I1 Wh HU Hg0 Hfresh Hnoalias Hdead Hchild R.
     pose proof (inv_wf _ _ _ _ _ _ _ I1) as WF1. pose proof (inv_main _ _ _ _ _ _ _ I1) as M1.
     destruct (inv_head_wf _ _ _ _ _ _ _ I1) as [_ [Hold _]].
     destruct (main_cons _ _ _ M1) as [l EqL].
@@ -80,36 +99,31 @@ Section Top.
     cbn [store_header idx rmain cons] in *. change (hash h, h_num h) with (key h) in *.
     destruct (beq (hash (head s1)) (h_parent h)) eqn:B; cbn [negb] in R.
     - (* the new header extends the head *)
-      inversion R; subst c3. specialize (Hchild eq_refl).
+      inversion R; subst c3 rm3. specialize (Hchild eq_refl).
       destruct (parent_of_spec _ _ _ _ _ WF1 Hh Hchild) as [_ [Hn _]].
-      eexists. apply (rebuild_inv hash r0 g0 s1 L D h I1 Wh Hg0 Hfresh Hnoalias Hdead 0%nat 0%nat h).
+      assert (CC := cons_conds r0 (cons s1) h [h] []).
+      destruct CC as [K1 [K2 [K3 K4]]].
+      { constructor; [intros [] | constructor]. }
+      { constructor. }
+      { left; reflexivity. }
+      { intros a []. }
+      { intros a [->|[]]; left; reflexivity. }
+      { exact (inv_cnodup _ _ _ _ _ _ _ I1). }
+      assert (RC := rmain_conds hash (rmain s1) h [h] [] fix_root).
+      destruct RC as [R0 [R1 R2]].
+      { constructor; [intros [] | constructor]. }
+      { constructor. }
+      { left; reflexivity. }
+      { intros a []. }
+      { intros a [->|[]]; left; reflexivity. }
+      eexists. apply (rebuild_inv hash r0 g0 U s1 L D h I1 Wh HU Hg0 Hfresh Hnoalias Hdead 0%nat 0%nat h); try assumption.
       + reflexivity.
       + rewrite store_parent by lia. rewrite Hchild, EqL. reflexivity.
       + cbn. lia.
       + lia.
       + intro Z. rewrite EqL in Z. discriminate.
-      + apply (cons_conds r0 (cons s1) h [h] []); cbn; try tauto.
-        * constructor; [intros [] | constructor].
-        * constructor.
-        * intros a [->|[]]; left; reflexivity.
-        * exact (inv_cnodup _ _ _ _ _ _ _ I1).
-      + apply (cons_conds r0 (cons s1) h [h] []); cbn; try tauto.
-        * constructor; [intros [] | constructor].
-        * constructor.
-        * intros a [->|[]]; left; reflexivity.
-        * exact (inv_cnodup _ _ _ _ _ _ _ I1).
-      + apply (cons_conds r0 (cons s1) h [h] []); cbn; try tauto.
-        * constructor; [intros [] | constructor].
-        * constructor.
-        * intros a [->|[]]; left; reflexivity.
-        * exact (inv_cnodup _ _ _ _ _ _ _ I1).
-      + apply (cons_conds r0 (cons s1) h [h] []); cbn; try tauto.
-        * constructor; [intros [] | constructor].
-        * constructor.
-        * intros a [->|[]]; left; reflexivity.
-        * exact (inv_cnodup _ _ _ _ _ _ _ I1).
     - (* re-organisation *)
-      destruct (restrict_ok_shape hash r0 g0 s1 L D h I1 Wh Hfresh Hnoalias c3 R) as [J [m [new2 [y [A [Ey [En [Ep ->]]]]]]]].
+      destruct (restrict_ok_shape hash r0 g0 U s1 L D h I1 Wh Hfresh Hnoalias (fun _ => Hg0) (fun _ => Hdead) c3 rm3 R) as [J [m [new2 [y [A [Ey [En [Ep [-> ->]]]]]]]]].
       destruct (main_num _ _ _ _ _ WF1 Hold M1 _ _ Ey) as [Qy Hy].
       assert (S2h : Stored (iset (key h) h (idx s1)) h) by apply store_stored_h.
       destruct (nth_anc_num _ _ _ _ _ _ WF2 Hh A) as [Qn Hn2].
@@ -121,7 +135,14 @@ Section Top.
       { intros a Ia. apply in_rev. exact Ia. }
       { intros a Ia. right. apply -> in_rev. exact Ia. }
       { exact (inv_cnodup _ _ _ _ _ _ _ I1). }
-      eexists. apply (rebuild_inv hash r0 g0 s1 L D h I1 Wh Hg0 Hfresh Hnoalias Hdead J (S m) new2); try assumption.
+      assert (RC := rmain_conds hash (rmain s1) h (ancs (iset (key h) h (idx s1)) h J) (rev (ancs (iset (key h) h (idx s1)) h J)) fix_root).
+      destruct RC as [R0 [R1 R2]].
+      { eapply ancs_nodup; eauto. }
+      { rewrite map_rev. apply NoDup_rev. eapply ancs_nodup; eauto. }
+      { destruct J; cbn; left; reflexivity. }
+      { intros a Ia. apply in_rev. exact Ia. }
+      { intros a Ia. right. apply -> in_rev. exact Ia. }
+      eexists. apply (rebuild_inv hash r0 g0 U s1 L D h I1 Wh HU Hg0 Hfresh Hnoalias Hdead J (S m) new2); try assumption.
       + (* the parent of the fork-height header is the main chain's next element *)
         rewrite (parent_of_same _ new2 y) by congruence.
         rewrite store_parent by lia.
@@ -137,35 +158,68 @@ Section Top.
   Lemma update_shape bt s h s' :
     update_client bt s h = Ok s' ->
     active bt s = true /\ check_validity hash ethash_ok bt s h = Ok tt /\
-    exists s1 c3, prune bt s = Ok s1 /\
+    exists s1 c3 rm3, prune bt s = Ok s1 /\
       (if negb (beq (hash (head s)) (h_parent h))
-       then restrict_chain hash (store_header hash s1 h) (head s) h else Ok (cons (store_header hash s1 h))) = Ok c3 /\
+       then restrict_chain hash (store_header hash s1 h) (head s) h
+       else Ok (cons (store_header hash s1 h), rmain (store_header hash s1 h))) = Ok (c3, rm3) /\
       s' = {| head := h; chain_id := chain_id s; trusting := trusting s; idx := idx (store_header hash s1 h);
-              rmain := rmain (store_header hash s1 h); cons := cset (h_rev h, h_num h) (cstate_of h) c3 |}.
+              rmain := rm3; cons := cset (h_rev h, h_num h) (cstate_of h) c3 |}.
   Proof.
-    unfold Eth.update_client, update_client_gen, check_header_gen. intro U.
-    destruct (active bt s) eqn:Act; cbn [negb] in U; [|discriminate]. split; [reflexivity|].
+    unfold Eth.update_client, update_client_gen, check_header_gen. change (v_d2 cur) with true. change (v_root cur) with fix_root.
+    fold (check_validity hash ethash_ok). intro Upd.
+    destruct (active bt s) eqn:Act; cbn [negb] in Upd; [|discriminate]. split; [reflexivity|].
     destruct (cget (h_rev (head s), h_num (head s)) (cons s)); [|discriminate].
     destruct (check_validity hash ethash_ok bt s h) as [[]| |] eqn:CV; try discriminate. split; [reflexivity|].
-    cbn [obind] in U. destruct (prune bt s) as [s1| |] eqn:P; try discriminate. cbn [obind] in U.
-    fold (restrict_chain hash) in U.
+    cbn [obind] in Upd. destruct (prune bt s) as [s1| |] eqn:P; try discriminate. cbn [obind] in Upd.
+    fold (restrict_chain hash) in Upd.
     destruct (if negb (beq (hash (head s)) (h_parent h)) then restrict_chain hash (store_header hash s1 h) (head s) h
-              else Ok (cons (store_header hash s1 h))) as [c3| |] eqn:R; try discriminate.
-    cbn [obind] in U. inversion U; subst s'. exists s1, c3. repeat split; assumption.
+              else Ok (cons (store_header hash s1 h), rmain (store_header hash s1 h))) as [[c3 rm3]| |] eqn:R; try discriminate.
+    cbn [obind fst snd] in Upd. inversion Upd; subst s'. exists s1, c3, rm3. repeat split; assumption.
+  Qed.
+
+  (** after an accepted update the client is active exactly when the accepted header itself is
+      not older than the trusting period *)
+  Lemma update_active_after bt s h s' :
+    update_client bt s h = Ok s' -> active bt s' = negb (add64 (h_time h) (trusting s) <? bt).
+  Proof.
+    intro Upd. destruct (update_shape _ _ _ _ Upd) as [_ [_ [s1 [c3 [rm3 [_ [_ ->]]]]]]].
+    unfold active. cbn [head cons trusting]. unfold cset, cget. rewrite cget_cset, ckey_eqb_refl. reflexivity.
+  Qed.
+
+  (** the key of a header whose parent is stored is not the key of a pruned main-chain header (those have no
+      stored parent, and the hash determines the parent hash) *)
+  Lemma not_dead s L D h p :
+    Inv s L D -> U h -> h_num h < two63 -> iget (pkey h) (idx s) = Some p ->
+    forall d, In d D -> key h <> key d.
+  Proof.
+    intros I HU Hh PH d Id K.
+    pose proof (inv_wf _ _ _ _ _ _ _ I) as WF.
+    assert (Range : forall x n a, iget (x, n) (idx s) = Some a -> g0 <= n < two63).
+    { intros x n a E. destruct (stored_lookup _ _ _ _ _ _ WF E) as [Sa Ka].
+      destruct (stored_wf _ _ _ _ WF Sa) as [_ [Q _]]. pose proof (inv_low _ _ _ _ _ _ _ I a Sa).
+      inversion Ka; subst. lia. }
+    destruct (deadpath_parent_gone _ _ _ _ _ _ Range (inv_dead _ _ _ _ _ _ _ I)) as [_ DeadD].
+    destruct (DeadD d Id) as [Nd [Hd Ud]].
+    inversion K as [[Kh Kn]].
+    assert (E : pkey h = pkey d) by (unfold pkey; rewrite (hash_parent h d HU Ud Hh Hd Kh), Kn; reflexivity).
+    rewrite E in PH. congruence.
   Qed.
 
   (** * Every accepted update preserves the invariant *)
   Theorem update_inv s L D bt h s' :
-    Inv s L D -> h_rev h = r0 -> h_num h < two63 ->
-    fresh_root_b hash s h = true -> noalias_b hash s h = true ->
+    Inv s L D -> U h -> (fix_rev = true \/ h_rev h = r0) -> h_num h < two63 ->
+    (fix_root = true \/ fresh_root_b hash s h = true) -> noalias_b hash s h = true ->
     update_client bt s h = Ok s' ->
     exists L' D', Inv s' L' D' /\ head s' = h.
   Proof.
-    intros I Hrev Hh Fr Na U.
-    destruct (update_shape _ _ _ _ U) as [Act [CV [s1 [c3 [P [R ->]]]]]].
+    intros I HU Hrev' Hh Fr' Na Upd.
+    assert (Fr : fix_root = false -> fresh_root_b hash s h = true).
+    { intro F. destruct Fr' as [T|Fr]; [rewrite F in T; discriminate T | exact Fr]. }
+    destruct (update_shape _ _ _ _ Upd) as [Act [CV [s1 [c3 [rm3 [P [R ->]]]]]]].
     pose proof (inv_wf _ _ _ _ _ _ _ I) as WF.
-    rewrite (check_validity_eq hash ethash_ok r0 bt s h WF Hh) in CV.
-    destruct (Eth.valid_child_b hash ethash_ok bt s h) eqn:V; [|discriminate].
+    destruct (check_validity_ok _ _ _ WF Hh CV) as [V [RO _]].
+    assert (Hrev : h_rev h = r0).
+    { destruct Hrev' as [Fx|E]; [|exact E]. rewrite (rev_ok_fixed _ _ Fx RO). exact (proj1 (inv_head_wf _ _ _ _ _ _ _ I)). }
     destruct (valid_child_parent _ _ _ _ _ V) as [H1 [_ [p [Ep [Hp Ru]]]]].
     assert (Hgl : h_gaslimit h < two63).
     { unfold rules_b in Ru. rewrite !andb_true_iff in Ru. apply validate_basic_gaslimit. tauto. }
@@ -178,40 +232,41 @@ Section Top.
     assert (PK : pkey h = key p) by (unfold pkey; rewrite sub64_pred by assumption; symmetry; exact Kp).
     assert (PH : iget (pkey h) (idx s) = Some p) by (rewrite PK; exact Sp).
     (* a dead header's parent key holds nothing, the new header's parent key holds p *)
-    assert (NotDead : forall d, h_num d < two63 -> iget (pkey d) (idx s) = None -> key h <> key d).
-    { intros d Hd Nd K. inversion K as [[Kh Kn]].
-      assert (E : pkey h = pkey d) by (unfold pkey; rewrite (hash_parent h d Hh Hd Kh), Kn; reflexivity).
+    assert (NotDead : forall d, h_num d < two63 /\ U d -> iget (pkey d) (idx s) = None -> key h <> key d).
+    { intros d [Hd Ud] Nd K. inversion K as [[Kh Kn]].
+      assert (E : pkey h = pkey d) by (unfold pkey; rewrite (hash_parent h d HU Ud Hh Hd Kh), Kn; reflexivity).
       rewrite E in PH. congruence. }
     assert (Range : forall x n a, iget (x, n) (idx s) = Some a -> g0 <= n < two63).
     { intros x n a E. destruct (stored_lookup _ _ _ _ _ _ WF E) as [Sa Ka].
       destruct (stored_wf _ _ _ _ WF Sa) as [_ [Q _]]. pose proof (inv_low _ _ _ _ _ _ _ I a Sa).
       inversion Ka; subst. lia. }
-    destruct (deadpath_parent_gone _ _ _ _ _ Range (inv_dead _ _ _ _ _ _ _ I)) as [_ DeadD].
+    destruct (deadpath_parent_gone _ _ _ _ _ _ Range (inv_dead _ _ _ _ _ _ _ I)) as [_ DeadD].
     destruct (inv_head_wf _ _ _ _ _ _ _ I) as [_ [Hold _]].
     (* the new header extends the head: its parent is the head *)
     assert (Child : beq (hash (head s)) (h_parent h) = true -> p = head s).
     { intro B. destruct (beq_spec (hash (head s)) (h_parent h)) as [E|]; [|discriminate].
-      assert (T : to_hash (h_parent h) = hash (head s)) by (rewrite <- E; apply to_hash_32; apply hash_len).
+      assert (T : to_hash (h_parent h) = hash (head s)).
+      { rewrite <- E; apply to_hash_32; apply hash_len. exact (inv_univ _ _ _ _ _ _ _ I _ (inv_head _ _ _ _ _ _ _ I)). }
       assert (Hh' : hash p = hash (head s)) by congruence.
-      pose proof (hash_num _ _ Hp63 Hold Hh') as Nn.
+      pose proof (hash_num _ _ (inv_univ _ _ _ _ _ _ _ I _ Sp) (inv_univ _ _ _ _ _ _ _ I _ (inv_head _ _ _ _ _ _ _ I)) Hp63 Hold Hh') as Nn.
       pose proof (inv_head _ _ _ _ _ _ _ I) as SH. unfold EthChain.Stored, EthChain.key in SH, Sp.
       rewrite Hh', Nn in Sp. congruence. }
     destruct (prune_spec hash r0 g0 U bt s L D I Act) as [[_ P0]|[_ [L1 [aL [EqL [NE1 [P1 [I1 [Low1 [SaL PaL]]]]]]]]]].
     - (* nothing pruned *)
       rewrite P0 in P. inversion P; subst s1.
-      destruct (step_from_pruned s L D h c3 I Wh Hg0) as [L' [I' _]]; try assumption.
-      + apply fresh_root_prop; exact Fr.
+      destruct (step_from_pruned s L D h c3 rm3 I Wh HU Hg0) as [L' [I' _]]; try assumption.
+      + intro F. apply fresh_root_prop; exact (Fr F).
       + apply noalias_prop; exact Na.
       + intros d Id. destruct (DeadD d Id). apply NotDead; assumption.
       + intro B. rewrite <- (Child B). exact PH.
       + exists L', D. split; [exact I' | reflexivity].
     - (* the earliest consensus state and its header were pruned *)
       rewrite P1 in P. inversion P; subst s1.
-      destruct (step_from_pruned (pruned hash r0 s aL) L1 (aL :: D) h c3 I1 Wh Hg0) as [L' [I' _]]; try assumption.
-      + intros a Sa. apply (fresh_root_prop _ _ Fr). exact (idel_sub hash _ _ _ _ Sa).
-      + intros a Ea. apply (noalias_prop _ _ Na). exact (idel_sub hash _ _ _ _ Ea).
+      destruct (step_from_pruned (pruned hash r0 s aL) L1 (aL :: D) h c3 rm3 I1 Wh HU Hg0) as [L' [I' _]]; try assumption.
+      + intros F a Sa. apply (fresh_root_prop _ _ (Fr F)). exact (idel_sub hash U _ _ _ _ Sa).
+      + intros a Ea. apply (noalias_prop _ _ Na). exact (idel_sub hash U _ _ _ _ Ea).
       + intros d [<-|Id].
-        * apply NotDead; [exact (proj1 (proj2 (stored_wf _ _ _ _ WF SaL))) | exact PaL].
+        * apply NotDead; [split; [exact (proj1 (proj2 (stored_wf _ _ _ _ WF SaL))) | exact (inv_univ _ _ _ _ _ _ _ I _ SaL)] | exact PaL].
         * destruct (DeadD d Id). apply NotDead; assumption.
       + intro B. cbn [head pruned] in *. pose proof (Child B) as Ep'. subst p.
         pose proof (inv_head _ _ _ _ _ _ _ I1) as SH1. cbn [head pruned] in SH1.
@@ -221,9 +276,9 @@ Section Top.
 
   (** * The state after creation *)
   Lemma init_inv chain trust g :
-    wf_hdr g -> h_num g = g0 -> Inv (create_client hash chain trust g (cstate_of g)) [g] [].
+    wf_hdr g -> U g -> h_num g = g0 -> Inv (create_client hash chain trust g (cstate_of g)) [g] [].
   Proof.
-    intros [Hr [Hn Hg]] G0.
+    intros [Hr [Hn Hg]] Ug G0.
     assert (H64 : h_num g < two64) by (pose proof two63_lt_two64; lia).
     assert (NoParent : parent_of [((hash g, h_num g), g)] g = None).
     { unfold parent_of, iget. cbn [mget]. destruct (hkey_eqb_spec (to_hash (h_parent g), sub64 (h_num g) 1) (hash g, h_num g)) as [K|_]; [|reflexivity].
@@ -244,26 +299,58 @@ Section Top.
     - intros a Sa La. destruct (Only _ _ Sa) as [_ ->]. unfold low in La. cbn in La. lia.
     - intros a Sa _. destruct (Only _ _ Sa) as [_ ->]. unfold rget. cbn [mget]. rewrite hkey_eqb_refl. reflexivity.
     - intros a Sa. destruct (Only _ _ Sa) as [_ ->]. lia.
+    - intros a Sa. destruct (Only _ _ Sa) as [_ ->]. exact Ug.
     - cbn [last DeadPath]. unfold pkey. cbn [snd]. destruct (N.eq_dec (h_num g) 0) as [Z|NZ].
       + right. rewrite Z, sub64_zero. unfold two63, two64. lia.
       + left. rewrite sub64_pred by lia. lia.
   Qed.
 
-  (** * Reachable states: creation with the installed header's own consensus state, then accepted
+  (** * Reachable states, indexed by the history of accepted headers (newest first, the creation
+      header last): creation with the installed header's own consensus state, then accepted
       updates with headers of the client's revision number, number below 2^63, a state root no
-      stored sibling has, and no different header stored under the same hash. *)
-  Inductive Reach : state -> Prop :=
-  | reach_init chain trust g : wf_hdr g -> h_num g = g0 -> Reach (create_client hash chain trust g (cstate_of g))
-  | reach_step s bt h s' :
-      Reach s -> h_rev h = r0 -> h_num h < two63 ->
-      fresh_root_b hash s h = true -> noalias_b hash s h = true ->
-      update_client bt s h = Ok s' -> Reach s'.
+      stored sibling has, and no different header stored under the same hash.  Refused
+      submissions leave the state unchanged (Model/Eth.v: [run]) and need no constructor. *)
+  Inductive Reach : list header -> state -> Prop :=
+  | reach_init chain trust g : wf_hdr g -> U g -> h_num g = g0 -> Reach [g] (create_client hash chain trust g (cstate_of g))
+  | reach_step hist s bt h s' :
+      Reach hist s -> U h -> (fix_rev = true \/ h_rev h = r0) -> h_num h < two63 ->
+      (fix_root = true \/ fresh_root_b hash s h = true) -> noalias_b hash s h = true ->
+      update_client bt s h = Ok s' -> Reach (h :: hist) s'.
 
-  Lemma reach_inv s : Reach s -> exists L D, Inv s L D.
+  Lemma reach_inv hist s : Reach hist s -> exists L D, Inv s L D.
   Proof.
-    induction 1 as [chain trust g W G|s bt h s' _ [L [D I]] Hr Hn Fr Na U].
+    induction 1 as [chain trust g W Ug G|hist s bt h s' _ [L [D I]] Uh Hr Hn Fr Na Upd].
     - exists [g], []. apply init_inv; assumption.
-    - destruct (update_inv _ _ _ _ _ _ I Hr Hn Fr Na U) as [L' [D' [I' _]]]. exists L', D'. exact I'.
+    - destruct (update_inv _ _ _ _ _ _ I Uh Hr Hn Fr Na Upd) as [L' [D' [I' _]]]. exists L', D'. exact I'.
+  Qed.
+
+  (** the head is the last accepted header *)
+  Lemma reach_head hist s : Reach hist s -> exists rest, hist = head s :: rest.
+  Proof.
+    destruct 1 as [chain trust g W Ug G|hist s bt h s' _ Uh Hr Hn Fr Na Upd].
+    - exists []. reflexivity.
+    - destruct (update_shape _ _ _ _ Upd) as [_ [_ [s1 [c3 [rm3 [_ [_ ->]]]]]]]. exists hist. reflexivity.
+  Qed.
+
+  (** every stored header is the creation header or was accepted before *)
+  Lemma prune_idx_sub bt s s1 k a : prune bt s = Ok s1 -> iget k (idx s1) = Some a -> iget k (idx s) = Some a.
+  Proof.
+    unfold prune. destruct (cfirst (cons s)) as [[k0 c]|]; [|intro E; inversion E; subst; tauto].
+    destruct (add64 (c_time c) (trusting s) <? bt); [|intro E; inversion E; subst; tauto].
+    destruct (rget _ (rmain s)) as [ik|]; [|discriminate].
+    intro E; inversion E; subst; cbn [idx]. apply (idel_sub hash U).
+  Qed.
+
+  Lemma reach_stored hist s : Reach hist s -> forall k a, iget k (idx s) = Some a -> In a hist.
+  Proof.
+    induction 1 as [chain trust g W Ug G|hist s bt h s' _ IH Uh Hr Hn Fr Na Upd]; intros k a E.
+    - cbn [create_client idx] in E. unfold iget in E. cbn [mget] in E.
+      destruct (hkey_eqb k (hash g, h_num g)); [|discriminate]. inversion E; subst. left; reflexivity.
+    - destruct (update_shape _ _ _ _ Upd) as [_ [_ [s1 [c3 [rm3 [P [_ ->]]]]]]]. cbn [idx store_header] in E.
+      unfold iset, iget in E. rewrite iget_iset in E.
+      destruct (hkey_eqb k (hash h, h_num h)).
+      + inversion E; subst. left; reflexivity.
+      + right. apply (IH k a). exact (prune_idx_sub _ _ _ _ _ P E).
   Qed.
 
   (** Every consensus state kept (under the client's revision number) for a height up to the
@@ -281,10 +368,10 @@ Section Top.
     pose proof (inv_cmain _ _ _ _ _ _ _ I a Ia) as C. rewrite Na in C. congruence.
   Qed.
 
-  Theorem main_chain_roots s k c :
-    Reach s -> cget (h_rev (head s), k) (cons s) = Some c -> k <= h_num (head s) ->
+  Theorem main_chain_roots hist s k c :
+    Reach hist s -> cget (h_rev (head s), k) (cons s) = Some c -> k <= h_num (head s) ->
     exists a, nth_anc (idx s) (head s) (N.to_nat (h_num (head s) - k)) = Some a /\ h_num a = k /\ c = cstate_of a.
-  Proof. intros R. destruct (reach_inv _ R) as [L [D I]]. exact (inv_main_chain_roots _ _ _ _ _ I). Qed.
+  Proof. intros R. destruct (reach_inv _ _ R) as [L [D I]]. exact (inv_main_chain_roots _ _ _ _ _ I). Qed.
 
   (** * Soundness of acceptance *)
   Theorem accept_sound s bt h s' :
@@ -301,10 +388,9 @@ Section Top.
                   Z.of_N (big (h_diff h)) = calc_difficulty (h_time h) p /\ len (h_extra h) <= 32 /\ ethash_ok h = true)) /\
     head s' = h.
   Proof.
-    intros WF Hh U. destruct (update_shape _ _ _ _ U) as [Act [CV [s1 [c3 [_ [_ ->]]]]]].
+    intros WF Hh Upd. destruct (update_shape _ _ _ _ Upd) as [Act [CV [s1 [c3 [rm3 [_ [_ ->]]]]]]].
     split; [exact Act|]. split; [|reflexivity].
-    rewrite (check_validity_eq hash ethash_ok r0 bt s h WF Hh) in CV.
-    destruct (Eth.valid_child_b hash ethash_ok bt s h) eqn:V; [|discriminate].
+    destruct (check_validity_ok _ _ _ WF Hh CV) as [V _].
     destruct (valid_child_parent _ _ _ _ _ V) as [H1 [_ [p [Ep [Hp Ru]]]]].
     exists p. split; [exact Ep|]. split; [exact Hp|].
     destruct (WF _ _ _ Ep) as [_ [Np _]]. split; [lia|].
@@ -317,12 +403,12 @@ Section Top.
   Qed.
 
   (** a refused update changes nothing; an accepted header is the new head *)
-  Lemma run_head fixed s bt h : match update_client_gen hash ethash_ok fixed bt s h with Ok s' => head s' = h | _ => True end.
+  Lemma run_head v s bt h : match update_client_gen hash ethash_ok v bt s h with Ok s' => head s' = h | _ => True end.
   Proof.
     unfold update_client_gen, check_header_gen.
     destruct (active bt s); cbn [negb]; [|exact I].
     destruct (cget _ (cons s)); [|exact I].
-    destruct (check_validity hash ethash_ok bt s h) as [[]| |]; cbn [obind]; try exact I.
+    destruct (check_validity_gen hash ethash_ok v bt s h) as [[]| |]; cbn [obind]; try exact I.
     destruct (prune bt s); cbn [obind]; try exact I.
     destruct (if negb (beq (hash (head s)) (h_parent h)) then _ else _); cbn [obind]; try exact I. reflexivity.
   Qed.
